@@ -69,6 +69,10 @@ def callee_of(term):
     return None
 
 
+FN_TRAIT_CALLS = ("core::ops::function::FnMut::call_mut", "core::ops::function::Fn::call",
+                  "core::ops::function::FnOnce::call_once")
+
+
 class Analysis:
     def __init__(self, fn, facts=None):
         self.fn = fn
@@ -513,6 +517,15 @@ class Analysis:
         if k == "call":
             args = [self.operand(st, a) for a in t["args"]]
             site = (self.fn.path, b)
+            if callee_of(t) in FN_TRAIT_CALLS and args:
+                # a call through Fn/FnMut/FnOnce whose receiver is (a reference to) a local closure of this function
+                # - as left by inlining a generic helper that took the closure as a parameter - is a call of that closure
+                r = args[0]
+                while r[0] in ("ref", "deref", "byref") and len(r) > 1 and isinstance(r[1], tuple):
+                    r = r[1]
+                if r[0] == "local" and self.local_tk[r[1]].get("k") == "closure":
+                    t = dict(t)
+                    t["f"] = dict(t["f"], res=self.local_tk[r[1]]["path"])
             v = self.call_value(st, t, args, site)
             dest = self.loc(st, t["dest"])
             # value of what each pointer argument points to, before the call
